@@ -5,3 +5,27 @@ CHAIN_NOTE = ("Trusted base: the Go toolchain, cosmos-sdk BaseApp/bank/auth as s
 claim("C01", "chainmon", "exploration",
       "After every transaction of seeded histories against the real app (real bank keeper, signed txs, gaps 0..20 blocks, overdrafts) the escrow module balance equals the sum of recorded balances and every actor's bank delta equals what the escrow record deltas explain; inflow only by the declared deposit into the named account. Exploration is the right level: the property quantifies over unbounded histories, the monitor judges each produced prefix exactly.",
       CHAIN_NOTE, "runtime monitor: conservation + flow-attribution oracle over store/bank snapshots after every DeliverTx", "DESIGN.md §5 C01")
+
+claim("C02", "chainmon", "exploration",
+      "Shadow monitor over full-application histories (exact accrual rate x (settled_at - created), upper bound rate x blocks-open, transferred == credited <= deposited, overdraft split within the stated bounds, frozen after close) plus a small-scope sweep calling the real escrow keeper with the real bank keeper on cache branches at arbitrary heights next to a per-block reference model (complete for <=2 concurrent payments in quick, <=3 in thorough: balances 0..12, rates 1..4, offsets 0..2, gaps 0..6, 5 triggers, settle once / every height).",
+      CHAIN_NOTE + " The reference model is 60 lines written from the statement; the overdraft remainder split is only bounded, not prescribed.",
+      "runtime monitor with shadow state + reference-model comparison (small scope exhaustive) on the real keeper", "DESIGN.md §5 C02")
+claim("C03", "chainmon", "exploration",
+      "After every tx of seeded histories (zero-gap / zero-balance closes weighted up): open payment => open account, closed/overdrawn => zero balance and raw record frozen, successful close message => named payment/account not open, the chain's own escrow.ValidateGenesis on the exported state, nothing open => module empty; plus all direct-keeper operation sequences up to length 3 (quick) / 4 (thorough) over 24 operations x 2 initial balances compared with the reference model.",
+      CHAIN_NOTE, "runtime invariant monitor on store snapshots + reference-model comparison of enumerated keeper call sequences", "DESIGN.md §5 C03")
+claim("C04", "chainmon", "exploration",
+      "Full scan of the decoded deployment and market stores after every tx of seeded histories (several tenants/providers/groups/bidders, overdraft at any phase) against the nine named invariants I1..I9 taken from the statement.",
+      CHAIN_NOTE, "runtime invariant monitor (structural invariants at quiescent points = after every DeliverTx)", "DESIGN.md §5 C04")
+claim("C05", "chainmon", "exploration",
+      "Join of market/deployment records with escrow records through id mappings re-stated in the monitor, after every tx: lease active <=> payment open, bid live <=> deposit account open, deployment active <=> account open, no orphans; deposits whole while live and returned in the tx that ends the bid/deployment; ended leases earn nothing.",
+      CHAIN_NOTE, "runtime invariant monitor joining two stores + bank-flow check", "DESIGN.md §5 C05")
+claim("C06", "chainmon", "exploration",
+      "Every message's required signer is compared with the statement's signer table; every tx signed by another party (own key, or forged signature under the right public key) must be rejected by the real ante handler with stores and balances unchanged; for every successful tx each raw store key written or deleted is decoded by the monitor's own decoder and must lie in the scope the message names. dseqs come from a pool colliding as decimal and binary prefixes and are shared by all tenants.",
+      CHAIN_NOTE, "runtime monitor over raw store diffs with independent key decoder; negative (wrong-signer) workload", "DESIGN.md §5 C06")
+claim("C07", "chainmon", "exploration",
+      "Each tx is delivered as identical bytes to three replicas of the app; result (code, data, gas, ordered events, log of successful txs) and each block's app hash must be byte-identical; a second OS process with different GOGC/GOMAXPROCS/environment replays the same seed and the per-history digests must agree. Map-order bugs show with probability >= 1/2 per occurrence per replica pair; >=50 attestation merges with >=3 keys per run is a floor.",
+      "Trusted base as for the chain engine; replicas share one Go runtime per process; Tendermint itself is not run.",
+      "N-version (replica) divergence monitor + cross-process digest comparison", "DESIGN.md §5 C07")
+claim("C08", "chainmon", "exploration",
+      "For every create-bid tx the admission predicate is evaluated on the pre-state in set algebra; alarm only when a bid is accepted although the predicate is false, and when a provider update leaves an active (non auditor-gated) lease uncovered. Directed negatives make every conjunct the single false one; MatchRequirements is compared with the oracle on a complete small universe (342 225 cases).",
+      CHAIN_NOTE, "runtime monitor: independent admission predicate on pre-state snapshots + exhaustive small-universe function oracle", "DESIGN.md §5 C08")
